@@ -161,8 +161,11 @@ def check(ctx):
         if f is None: continue
         sets = []
         for pt in sorted(an.sites(f, Call(r"nix::sys::epoll::EpollEvent::new", transitive=False), "must")):
-            acc = set(); flag_names(f, trace_operand(f, f.node(pt)["args"][0]), acc); sets.append(acc)
-        ok = len(sets) == len(need) and all(any(n <= s for s in sets) for n in need)
+            o = simplify(trace_operand(f, f.node(pt)["args"][0]))
+            # one registration per alternative: two `EpollEvent::new` calls, or one call on `if is_read { A } else { B }`
+            for alt in (o[2] if o[0] == "phi" else [o]):
+                acc = set(); flag_names(f, alt, acc); sets.append(acc)
+        ok = bool(sets) and all(any(n <= s for s in sets) for n in need) and all(any(n <= s for n in need) for s in sets)
         ctx.ob("R-SIB", fid, "epoll/" + label, ok, "%s registers %s (edge-triggered, both directions)" % (fid, [sorted(s) for s in sets]) if ok else
                "%s registers %s; required ⊇ %s: a direction that is not registered never produces a readiness edge" % (fid, [sorted(s) for s in sets], [sorted(n) for n in need]), f.where())
     # thread path: result stored before the thread is unparked
